@@ -228,7 +228,9 @@ DoDbw(ev) ==
       v == Lbl({"C08"}, "rec-unknown-outs", s # 0)
            \cup (IF s = 0 THEN {} ELSE
                    Lbl({"C05", "C02"}, "rec-without-success", w.inv.adopt \/ w.pend.s = s)
-                   \cup Lbl({"C09"}, IF w.inv.adopt THEN "rec-deps-adopt" ELSE "rec-deps", (w.inv.adopt \/ w.pend.s = s) => ev.deps = expected)
+                   \cup Lbl(IF g.steps[s].depfile # "" THEN {"C09", "C15"} ELSE {"C09"},
+                          IF w.inv.adopt THEN "rec-deps-adopt" ELSE "rec-deps",
+                          (w.inv.adopt \/ w.pend.s = s) => ev.deps = expected)
                    \cup Lbl({"C02"}, "rec-missing-file", MissingOf(g, w.file, s, ev.deps) = {})
                    \cup Lbl({"C13"}, "uncanonical-dep", Range(ev.deps) \cap Uncanonical(g) = {}))
       cov == BumpIf(BumpIf(BumpIf(Bump(w.cov, "dbw"), "adoptRec", isBuild /\ w.inv.adopt),
